@@ -190,9 +190,69 @@ Example C19_includes_order_examples :
   includes_order true [[3; 1; 2]; [2]; []; [1; 2]]%nat = Ok [3; 1; 2]%nat.
 Proof. exact includes_order_examples. Qed.
 
+(* Every submodule of the include closure of a module is described exactly once, with its revision, and nothing
+   else is (ylib_submodules over the includes array; sinfo j = name and revision of submodule j, names distinct). *)
+Theorem C19_description_lists_closure_submodules :
+  forall incs v11 (sinfo : nat -> bytes * option bytes),
+    wf_incs incs -> NoDup (inc_of incs O) -> (forall i j, fst (sinfo i) = fst (sinfo j) -> i = j) ->
+    match includes_order v11 incs with
+    | Ok order =>
+        NoDup (map fst (map sinfo order)) /\
+        (forall j, sreach incs j -> In (sinfo j) (map sinfo order)) /\
+        (forall e, In e (map sinfo order) -> exists j, sreach incs j /\ e = sinfo j)
+    | Err _ => v11 = true
+    end.
+Proof. exact described_submodules_spec. Qed.
+Print Assumptions C19_description_lists_closure_submodules.
+
+(* the submodule entries of a module / import-only-module entry are the includes array of the module *)
+Theorem C19_description_submodule_entries :
+  forall c m, ym_submodules (describe_module c m) = y_subs m /\ yi_submodules (describe_imponly m) = y_subs m.
+Proof. exact describe_submodules. Qed.
+Print Assumptions C19_description_submodule_entries.
+
+(* The deviation list of an implemented module = exactly the implemented modules of the context that deviate it
+   (what lys_implement registers in deviated_by); a module that is not implemented has none. *)
+Theorem C19_description_deviation_list :
+  forall c m,
+    (y_impl m = true -> forall n, In n (ym_deviations (describe_module c m)) <->
+       exists d, In d c /\ y_impl d = true /\ deviates d m = true /\ y_name d = n) /\
+    (y_impl m = false -> ym_deviations (describe_module c m) = []).
+Proof. exact describe_deviations_spec. Qed.
+Print Assumptions C19_description_deviation_list.
+
+(* describe (rebuild (describe s)) = describe s on the modelled part: the rebuilt context has the same records, its
+   description has the same import-only-module entries and module entries that say the same (name, revision,
+   namespace, features, submodules; the system-ordered deviation leaf-list as a set).  rt_ok now allows augment and
+   deviation statements (through imports, original context settled: their targets are implemented). *)
+Theorem C19_describe_rebuild_describe :
+  forall src s c0 rk cid, rt_ok src s c0 rk ->
+    exists s', rebuild (describe cid s) src c0 = Ok s' /\
+      (forall e, In e (yl_imponly (describe cid s')) <-> In e (yl_imponly (describe cid s))) /\
+      (forall e, In e (yl_modules (describe cid s')) -> exists e', In e' (yl_modules (describe cid s)) /\ entry_same e e') /\
+      (forall e, In e (yl_modules (describe cid s)) -> exists e', In e' (yl_modules (describe cid s')) /\ entry_same e e').
+Proof. exact describe_rebuild_describe. Qed.
+Print Assumptions C19_describe_rebuild_describe.
+
+(* the hypotheses are satisfiable with augment / deviation statements: x deviates a, b augments a and imports x, a
+   has a submodule; the context is settled, and the model computes its round trip *)
+Example C19_roundtrip_hypotheses_with_deviation :
+  rt_ok d_src d_s [] d_rk /\ rebuild (describe [] d_s) d_src [] = Ok d_s /\ settle d_s = d_s.
+Proof. split; [exact d_rt_ok|exact d_rebuild]. Qed.
+
+(* with a deviation the model computes: x deviates a; loading x implements a; the description of a lists x; the
+   rebuild from the description gives the same context *)
+Example C19_deviation_roundtrip_computed :
+  load_module 5 [d_x false; d_a] [] e_x None (F_list []) = Ok (settle [d_x true; d_a]) /\
+  y_impl (nth 1 (settle [d_x true; d_a]) d_a) = true /\
+  ym_deviations (describe_module (settle [d_x true; d_a]) (nth 1 (settle [d_x true; d_a]) d_a)) = [e_x] /\
+  rebuild (describe [] (settle [d_x true; d_a])) [d_x false; d_a] [] = Ok (settle [d_x true; d_a]).
+Proof. exact e_deviation_roundtrip. Qed.
+
 (* yanglib_roundtrip: under rt_ok (same sources; every import means a module of the context, an import without
    revision-date only names a module with a single revision = imports_pinned; acyclic imports; import-only modules
-   are reachable from implemented ones; the rebuilding context c0 may already hold modules of the original, the
+   are reachable from implemented ones; augment / deviation statements go through imports and their targets are
+   implemented in the original; the rebuilding context c0 may already hold modules of the original, the
    implemented ones in any feature state) rebuilding from the description succeeds and the new context holds exactly
    the module records of the old one: the same implemented modules at the same revisions with the same enabled
    features and every import-only module the description lists.  Compilation is not modelled. *)
@@ -232,6 +292,6 @@ Qed.
 (* outside imports_pinned the model does not answer (an import without revision-date of a module with two
    revisions); on the implementation the round trip can then fail (finding yl-import-only-rev) *)
 Example C19_unpinned_import_is_unmodelled :
-  rebuild (describe [] [e_X true true]) [mkymod (y_mod (e_X false false)) (e_ns e_x) [(e_a, None)]; e_A19; e_A20] [e_A19]
+  rebuild (describe [] [e_X true true]) [mkymod (y_mod (e_X false false)) (e_ns e_x) [(e_a, None)] [] []; e_A19; e_A20] [e_A19]
   = Err E_UNMODELLED.
 Proof. exact e_unmodelled. Qed.
